@@ -31,6 +31,8 @@ var (
 	cfgCvc5Enum = solverCfg{"cvc5(enum-inst)", "cvc5", []string{"--enum-inst"}, "cvc5"}
 )
 
+var sfSymRe = regexp.MustCompile(`sf_[A-Za-z0-9_]+`)
+
 var floatFnRe = regexp.MustCompile(`\b((?:i2f|u2f|f2i|f2f)_(\d+)_(\d+)|f_(?:add|sub|mul|div|neg|lt|le|eq))\b`)
 
 // render builds the self-contained SMT-LIB text of one obligation.
@@ -64,6 +66,7 @@ func (V *Verifier) render(o *Obligation, withModel bool) string {
 	}
 	body := strings.Join(e.lazy, "\n") + "\n" + strings.Join(e.ctx[:o.CtxLen], "\n") + "\n" + o.Goal
 	extra := strings.Join(V.extraDecl, "\n")
+	used := make([]bool, len(V.axiomTerms))
 	// float function declarations (uninterpreted)
 	seen := map[string]bool{}
 	for _, m := range floatFnRe.FindAllStringSubmatch(body+extra, -1) {
@@ -84,8 +87,29 @@ func (V *Verifier) render(o *Obligation, withModel bool) string {
 		}
 	}
 	b.WriteString(extra + "\n")
-	for _, ax := range V.axiomTerms {
-		b.WriteString("(assert " + ax + ")\n")
+	// definitional axioms: only those whose spec functions the query mentions (closed
+	// under the functions their definitions use)
+	need := body
+	for changed := true; changed; {
+		changed = false
+		for i, ax := range V.axiomTerms {
+			if used[i] {
+				continue
+			}
+			for _, sym := range sfSymRe.FindAllString(ax, -1) {
+				if strings.Contains(need, sym+" ") || strings.Contains(need, sym+")") {
+					used[i] = true
+					need += ax
+					changed = true
+					break
+				}
+			}
+		}
+	}
+	for i, ax := range V.axiomTerms {
+		if used[i] {
+			b.WriteString("(assert " + ax + ")\n")
+		}
 	}
 	b.WriteString(strings.Join(e.lazy, "\n") + "\n")
 	b.WriteString(strings.Join(e.ctx[:o.CtxLen], "\n") + "\n")
@@ -211,7 +235,7 @@ func (V *Verifier) solveOne(o *Obligation, opt solveOpts) {
 	finish := func(res, solver, out string) {
 		o.Result, o.Solver, o.Output = res, solver, out
 		o.Ms = time.Since(start).Milliseconds()
-		if res == "unsat" && !o.Cover {
+		if res == "unsat" && !o.Cover && os.Getenv("GOCV_KEEP") == "" {
 			os.Remove(file)
 		}
 	}
